@@ -4,7 +4,7 @@ import re
 from .. import audit, backend
 from ..core import RuleResult
 from ..facts import AnalysisError
-from ..mir import Fn, Flow, op_local, op_root, is_passthrough, place_fields
+from ..mir import Fn, Flow, op_local, op_root, is_passthrough, place_fields, rvalue_places
 
 HASH_ADTS = ("std::collections::hash::map::HashMap", "std::collections::hash::set::HashSet")
 ORDERED_SET_RE = re.compile(r"^(core::result::Result<|core::option::Option<)?\s*(std::collections::(HashMap|HashSet|BTreeMap|BTreeSet)|"
@@ -713,4 +713,121 @@ def rule_trunc(ctx):
                 res.inst(ikey, t["sp"]["file"], t["sp"]["line"], "ok", "read-only" if not writes else "starts from an empty file / appends")
     if n < 3:
         raise AnalysisError("R-TRUNC: only %d file-opening sites found (the driver writes its artefacts, the C driver and the runtime)" % n)
+    return res
+
+
+LOSSY_PATH = {"file_name", "file_stem", "file_prefix", "extension", "parent", "strip_prefix", "components", "iter", "ancestors",
+              "with_file_name", "with_extension", "last", "next_back", "nth", "len"}
+MAP_LOOKUPS = {"get", "get_mut", "insert", "contains_key", "entry", "remove", "get_or_insert_with", "get_key_value"}
+
+
+def _lossy_inside(fx, key, depth=0, seen=None):
+    """a path projection inside an in-workspace helper (transitively)"""
+    seen = seen if seen is not None else set()
+    if key in seen or depth > 4:
+        return None
+    seen.add(key)
+    f = fx.fns.get(key)
+    if not f:
+        return None
+    for b in f["blocks"]:
+        t = b["term"]
+        if t["k"] != "call":
+            continue
+        nm = t.get("callee_name")
+        slf = (t.get("callee_self") or "") + (t.get("callee") or "")
+        if nm in LOSSY_PATH and ("path::Path" in slf or "ffi::OsStr" in slf or "path::Components" in slf):
+            return "%s (%s:%d)" % (nm, t["sp"]["file"], t["sp"]["line"])
+        k2 = t.get("resolved_key") or t.get("callee_key")
+        if k2 in fx.fns:
+            r = _lossy_inside(fx, k2, depth + 1, seen)
+            if r:
+                return r
+    for k2 in fx.fns:
+        if k2.startswith(key + "::{closure"):
+            r = _lossy_inside(fx, k2, depth + 1, seen)
+            if r:
+                return r
+    return None
+
+
+def rule_cachekey(ctx):
+    """R-CACHEKEY: the driver's caches are keyed by the whole path"""
+    fx = ctx.fx
+    res = RuleResult("R-CACHEKEY", "every lookup or insertion on a map held in the driver (its per-file caches of sources and intermediate programs) "
+                     "takes a key that is the file's path as given - the parameter itself, a clone or an owned/canonical form of it - and not a "
+                     "projection of it (file_name, file_stem, extension, parent, a component): with a projected key two files that share the "
+                     "projection share the cache entry, and what a compilation prints depends on what was compiled before in the same process")
+    n = 0
+    for key, f in sorted(fx.fns.items()):
+        if f["crate"] not in ("driver", "scc") or "{promoted" in key:
+            continue
+        fn = None
+        for bi, b in enumerate(f["blocks"]):
+            t = b["term"]
+            if t["k"] != "call" or t.get("callee_name") not in MAP_LOOKUPS:
+                continue
+            core = t.get("callee_self_core") or ""
+            if not core.endswith(("::HashMap", "::BTreeMap", "::HashSet", "::BTreeSet")) or len(t["args"]) < 2:
+                continue
+            fn = fn or Fn(f)
+            # the receiver is a field of a struct of the crate (not a local map)
+            recv = set()
+            work, seen = [op_root(t["args"][0])], set()
+            while work:
+                l0 = work.pop()
+                if l0 is None or l0 in seen:
+                    continue
+                seen.add(l0)
+                for d in fn.defs().get(l0, []):
+                    if d["kind"] == "arg":
+                        recv.add(l0)
+                    elif d["kind"] == "assign":
+                        for pl, _r in rvalue_places(d["rv"]):
+                            work.append(pl["l"])
+                    elif d["kind"] == "call" and d["term"].get("callee_name") in ("deref", "deref_mut", "borrow", "borrow_mut", "as_ref", "as_mut"):
+                        work.append(op_root(d["term"]["args"][0]))
+            if not recv:
+                continue
+            n += 1
+            ikey = "%s@%s:%d" % (key, t["callee_name"], sum(1 for b2 in f["blocks"][:bi] if b2["term"]["k"] == "call" and b2["term"].get("callee_name") == t["callee_name"]))
+            work, seen = [op_root(t["args"][1])], set()
+            bad = None
+            reaches_param = False
+            if t["args"][1].get("k") == "const":
+                bad = "a constant"
+            while work and not bad:
+                l0 = work.pop()
+                if l0 is None or l0 in seen:
+                    continue
+                seen.add(l0)
+                for d in fn.defs().get(l0, []):
+                    if d["kind"] == "arg":
+                        reaches_param = True
+                    elif d["kind"] == "assign":
+                        for pl, _r in rvalue_places(d["rv"]):
+                            work.append(pl["l"])
+                    elif d["kind"] == "call":
+                        t2 = d["term"]
+                        n2 = t2.get("callee_name")
+                        slf = (t2.get("callee_self") or "") + (t2.get("callee") or "")
+                        if n2 in LOSSY_PATH and ("path::Path" in slf or "ffi::OsStr" in slf or "path::Components" in slf):
+                            bad = "%s() of the path" % n2
+                            break
+                        k2 = t2.get("resolved_key") or t2.get("callee_key")
+                        if k2 in fx.fns and fx.fns[k2]["crate"] not in SKIP_CRATES:
+                            r = _lossy_inside(fx, k2)
+                            if r:
+                                bad = "%s, which takes %s" % (k2.split("::")[-1], r)
+                                break
+                        for a in t2["args"]:
+                            work.append(op_root(a))
+            if bad:
+                res.inst(ikey, t["sp"]["file"], t["sp"]["line"], "violation")
+                res.violate(ikey, "the key of this %s on a map of the driver is %s and not the whole path: two files in different directories that agree on "
+                            "it share the entry, so the second compilation returns the first file's result" % (t["callee_name"], bad), t["sp"]["file"], t["sp"]["line"])
+            else:
+                res.inst(ikey, t["sp"]["file"], t["sp"]["line"], "ok", "key is the path parameter" if reaches_param else "key does not go through a path projection")
+    if n < 2:
+        raise AnalysisError("R-CACHEKEY: only %d cache lookups found in the driver (its stages look up and fill a cache)" % n)
     return res
